@@ -156,6 +156,12 @@ theorem C18_weights (m : D) (i j : Nat) :
     rowWeight m i = ((List.range m.nc).filter fun c => bit m i c).length ∧
     colWeight m j = ((List.range m.nr).filter fun r => bit m r j).length := ⟨rowWeight_eq m i, colWeight_eq m j⟩
 
+/-- of_mod2dense_row_weight_ignore_first (which hands the tail of the row to `of_hweight_array`): the routine skips whole 32-bit words,
+so it returns the number of one bits of row i in the columns from 32·⌊nb/32⌋ on — for nb a multiple of 32, the columns from nb on -/
+theorem C18_row_weight_ignore_first {m : D} (h : WF m) (i nb : Nat) :
+    rowWeightIgnoreFirst m i nb = ((List.range m.nc).filter (fun j => decide (32 * (nb / 32) ≤ j) && bit m i j)).length :=
+  rowWeightIgnoreFirst_eq h i nb
+
 /-- of_mod2dense_copycols: column c of the destination, in the rows of the source, becomes column `cols[c]` of the source; everything
 else of the destination is left as it was (the routine does not clear it); a destination with fewer rows is refused unchanged -/
 theorem C18_get_copycols {m r : D} (hr : WF r) (idx : List Nat) :
